@@ -213,6 +213,11 @@ func execConc(ts []string) string {
 				if ctx.Value(concFirst{}) != nil {
 					return first, nil
 				}
+				if ctx.Value(concFail{}) != nil {
+					// a connection attempt that fails (nothing is dialled, the transport sees nothing)
+					l.yield()
+					return nil, errors.New("dial refused by the scenario")
+				}
 				return dial(ctx, address)
 			},
 		}
@@ -266,6 +271,15 @@ func execConc(ts []string) string {
 					} else {
 						out = "o"
 					}
+				case call == "x":
+					// Connect that fails: the client stays what it was (still connected to what it was connected to)
+					if netClient == nil {
+						out = "e-noconnect"
+					} else if err := netClient.Connect(context.WithValue(context.Background(), concFail{}, 1), "scripted"); err != nil {
+						out = "xf"
+					} else {
+						out = "x-connected"
+					}
 				case call == "c":
 					if err := caller.Close(); err != nil {
 						out = "e-close"
@@ -318,7 +332,7 @@ func execConc(ts []string) string {
 	go func() { wg.Wait(); close(done) }()
 	select {
 	case <-done:
-	case <-time.After(300 * time.Second):
+	case <-time.After(75 * time.Second):
 		return "HANG"
 	}
 	if panicked.Load() {
@@ -351,6 +365,7 @@ func execConc(ts []string) string {
 }
 
 type concFirst struct{}
+type concFail struct{}
 
 // yieldingHooks are client hooks that give other goroutines a chance to run while a callback is in progress
 type yieldingHooks struct{ l *concLog }
